@@ -47,7 +47,8 @@ TRUSTED = [
 RULE = ("rational orthogonal matrices (48 signed permutations, Pythagorean rotations, Cayley transforms of small "
         "integer skew matrices, proper and improper); random O(3) elements; the 48 cubic and 24 hexagonal point "
         "operations; every shell s,p,d,f and every hybrid name of orbitals.hybrid_shells_list; space groups Pm-3m, "
-        "Fd-3m, P6/mmm, P6_3mc-type, P4/mmm, P-1 with several site sets.  non-trivial = rotation not a signed "
+        "Fd-3m, P6/mmm, P6_3mc-type, P4/mmm, P-1 with several site sets, default and user-given local frames (generic "
+        "directions and directions tilted by 1e-4 .. 3e-2 rad away from a Cartesian axis).  non-trivial = rotation not a signed "
         "permutation or shell d/f or a hybrid; distinct = distinct (operation, inputs)")
 
 
@@ -309,15 +310,21 @@ def dwann_objects(ctx, nmax, orbitals=None, spinor_prob=0.0):
         site = rng.choice(sites)
         orb = rng.choice([o for o in orbs if orbitals is None or o in orbitals] or ["s"])
         rotate_basis = rng.random() < 0.7
-        case = dict(what="Dwann construction", spacegroup=name, site=site, orbital=orb, spinor=spinor, rotate_basis=rotate_basis)
+        xaxis = zaxis = None
+        if rng.random() < 0.4:      # a user-given local frame (generic or slightly tilted away from a Cartesian axis)
+            xaxis, zaxis = rand_axes(np.random.RandomState(rng.getrandbits(31)))
+        case = dict(what="Dwann construction", spacegroup=name, site=site, orbital=orb, spinor=spinor, rotate_basis=rotate_basis,
+                    xaxis=xaxis, zaxis=zaxis)
         with ctx.attempt("Dwann construction", case):
             with quiet():
                 sg = SpaceGroup.from_cell(real_lattice=lat, positions=pos, typat=typ, spinor=spinor)
-                proj = Projection(position_num=site, orbital=orb, spacegroup=sg, rotate_basis=rotate_basis)
+                proj = Projection(position_num=site, orbital=orb, spacegroup=sg, rotate_basis=rotate_basis,
+                                  xaxis=xaxis, zaxis=zaxis)
                 dw = Dwann(spacegroup=sg, positions=proj.positions, orbital=orb, orbitalrotator=rotator,
                            basis_list=proj.basis_list, spinor=spinor)
             dw._verif = dict(case, basis_list=np.array(proj.basis_list))
-            yield f"{name}:{orb}:{'rot' if rotate_basis else 'fix'}{':spinor' if spinor else ''}", dw, sg
+            yield (f"{name}:{orb}:{'rot' if rotate_basis else 'fix'}{':spinor' if spinor else ''}"
+                   f"{':axes' if (xaxis is not None or zaxis is not None) else ''}"), dw, sg
 
 
 # --------------------------------------------------------------------------------------------
@@ -342,6 +349,7 @@ def oracle(ctx, scale):
     oracle_hybrids(ctx, scale, rs)
     oracle_rotator_glue(ctx, scale, rs)
     oracle_long_history(ctx, scale, rs)
+    oracle_local_frames(ctx, scale, rs)
     oracle_dwann(ctx, scale, rs)
 
 
@@ -569,6 +577,72 @@ def oracle_long_history(ctx, scale, rs):
     ctx.count("oracle.history.requests", ntot)
     ctx.count("oracle.history.distinct_rotations", ndist)
     ctx.count("oracle.history.failures", nfail)
+
+
+def rand_axis(rs, ref=None):
+    """a direction: generic, or tilted by a small angle (1e-4 .. 3e-2 rad) away from a Cartesian axis (bond directions
+    of slightly relaxed structures); never closer than 1e-4 rad to `ref` (the code raises for collinear input)"""
+    while True:
+        if rs.rand() < 0.5:
+            v = rs.normal(size=3)
+        else:
+            e = np.zeros(3)
+            e[rs.randint(3)] = rs.choice([1.0, -1.0])
+            t = rs.normal(size=3)
+            t -= t.dot(e) * e
+            t /= np.linalg.norm(t)
+            v = e + float(rs.choice([1e-4, 1e-3, 4e-3, 8e-3, 3e-2])) * t
+        v = v * rs.uniform(0.5, 2.0)
+        if ref is None or np.linalg.norm(np.cross(v / np.linalg.norm(v), ref / np.linalg.norm(ref))) > 1e-4:
+            return v
+
+
+def rand_axes(rs):
+    """(xaxis, zaxis) as accepted by Projection / read_xzaxis: one of them, both (orthogonal), or none"""
+    u = rs.rand()
+    if u < 0.4:
+        return None, rand_axis(rs, ref=np.array([1.0, 0, 0]))
+    if u < 0.7:
+        return rand_axis(rs, ref=np.array([0, 0, 1.0])), None
+    if u < 0.9:
+        z = rand_axis(rs)
+        x = np.cross(z, rs.normal(size=3))
+        return x, z
+    return None, None
+
+
+def oracle_local_frames(ctx, scale, rs):
+    """user-given local frames (xaxis / zaxis of a projection): the frame must be orthonormal and right-handed with the
+    requested axes, and the orbital matrices built with it must be orthogonal (identity for the identity operation)"""
+    from wannierberri.symmetry.projections import read_xzaxis
+    from wannierberri.symmetry.orbitals import OrbitalRotator
+    rotator = OrbitalRotator()
+    for it in range(ctx.n(60, 400) * scale):
+        xaxis, zaxis = rand_axes(rs)
+        case = dict(what="read_xzaxis", xaxis=xaxis, zaxis=zaxis)
+        with ctx.attempt("read_xzaxis", case):
+            B = read_xzaxis(None if xaxis is None else xaxis.copy(), None if zaxis is None else zaxis.copy())
+            ctx.case(signature=("frame", it), nontrivial=xaxis is not None or zaxis is not None)
+            ctx.count(f"oracle.frame.x={'given' if xaxis is not None else 'none'}.z={'given' if zaxis is not None else 'none'}")
+            d = float(np.abs(B @ B.T - np.eye(3)).max())
+            if d > 1e-12 or abs(np.linalg.det(B) - 1) > 1e-12:
+                ctx.fail(f"read_xzaxis: the local frame is not orthonormal / right-handed (|B B^T - 1| = {d:.3e})", dict(case, basis=B))
+                continue
+            if zaxis is not None and np.linalg.norm(np.cross(B[2], zaxis)) > 1e-12 * np.linalg.norm(zaxis) or \
+                    zaxis is not None and B[2].dot(zaxis) <= 0:
+                ctx.fail("read_xzaxis: the third row of the frame is not the requested z axis", dict(case, basis=B))
+            if xaxis is not None and (np.linalg.norm(np.cross(B[0], xaxis)) > 1e-12 * np.linalg.norm(xaxis) or B[0].dot(xaxis) <= 0):
+                ctx.fail("read_xzaxis: the first row of the frame is not the requested x axis", dict(case, basis=B))
+            if it % 4 == 0:
+                # the matrices of the identity operation between two sites carrying this frame, and of a random operation
+                for sym in ("p", "d"):
+                    A = rotator(sym, rot_cart=np.eye(3), basis1=B, basis2=B)
+                    if np.abs(A - np.eye(len(A))).max() > 1e-10:
+                        ctx.fail(f"'{sym}' matrix of the identity operation in a user-given local frame is not the identity", dict(case, basis=B))
+                    R = rand_O3(rs)
+                    A = rotator(sym, rot_cart=R, basis1=B, basis2=B)
+                    if np.abs(A.T @ A - np.eye(len(A))).max() > 1e-10:
+                        ctx.fail(f"'{sym}' matrix in a user-given local frame is not orthogonal", dict(case, basis=B, R=R))
 
 
 def oracle_dwann(ctx, scale, rs):
